@@ -119,7 +119,7 @@ def run(ctx):
                               "constructs (0, 0); tag()'s unknown-language result is \"und\"")
     real_sub = {s[0] for e in L for s in e[2]}
     news = calls(prog, f_from, r"Language::new$")
-    ctx.floor("LANG-FALLBACK", "Language::new calls in from_tag", len(news), 3)
+    ctx.floor("LANG-FALLBACK", "Language::new calls in from_tag", len(news), 2)
     Sf = Sym(prog, f_from)
     both_const = 0
     for b, t in news:
@@ -136,13 +136,28 @@ def run(ctx):
                       f_from.loc(t["sp"]), fn=f_from.name, key="LANG-FALLBACK|const-sublang")
         if a0.get("k") == "const" and a1.get("k") == "const":
             both_const += 1
+            # the neutral language is the answer only once the language table has been searched in vain
+            fs = Sf.bool_facts_at(b)
+            exhausted = any(re.search(r"Iterator>?::next\)?$|::next\)$", e) and tr == ("==", 0) for (e, tr, g) in fs)
+            other = [e[:80] for (e, tr, g) in fs if not re.search(r"::next\)?$", e)]
+            ctx.check(exhausted and not other, "LANG-FALLBACK", "neutral result only after the table is exhausted", "",
+                      "from_tag returns the neutral language on a path that has not searched the whole language table (conditions: %s): a tag that is in the table "
+                      "can map to code 0" % (other or "no loop-exhaustion fact"), f_from.loc(t["sp"]), fn=f_from.name, key="LANG-FALLBACK|neutral-early")
     ctx.check(both_const >= 1, "LANG-FALLBACK", "fall-through constructs the neutral language", "", "no Language::new(0, 0) fall-through in from_tag", f_from.loc(), fn=f_from.name)
     strs = [Sym(prog, f_tag).val(o) for b in f_tag.blocks for s in b["stmts"] for o in s["rhs"].get("ops", []) if o.get("k") == "const" and "str" in o]
     ctx.check("s:'und'" in strs, "LANG-FALLBACK", "tag() of an unknown language", "\"und\"", "tag() has no \"und\" result: %s" % strs, f_tag.loc(), fn=f_tag.name)
-    # from_tag compares the language tag with parts[0] and the sub-language tag with the whole tag
-    eqs = calls(prog, f_from, r"PartialEq::eq$")
-    ev = [tuple(Sf.val(a) for a in t["args"]) for b, t in eqs]
-    ctx.check(len(eqs) >= 2, "LANG-FALLBACK", "from_tag comparisons", "%d string comparisons" % len(eqs), "from_tag no longer compares tags", f_from.loc(), fn=f_from.name)
-    whole = [e for e in ev if any(x in ("&p1", "p1", "&*p1") or x.endswith("p1") for x in e)]
+    # from_tag compares the language tag with parts[0] and the sub-language tag with the whole tag (in the function or in a closure it builds)
+    from ..lib import closure_caps, outer_view
+    caps = closure_caps(prog, f_from, Sf)
+    ev = []
+    for g in prog.unit(f_from):
+        Sg = Sf if g is f_from else Sym(prog, g)
+        for b, t in calls(prog, g, r"PartialEq(<[^>]*>)?::eq$|PartialEq<&B> for &A>::eq$"):
+            vals = tuple(Sg.val(a) for a in t["args"])
+            if g is not f_from:
+                vals = tuple(outer_view(v, caps.get(g.id, [])) for v in vals)
+            ev.append(vals)
+    ctx.check(len(ev) >= 2, "LANG-FALLBACK", "from_tag comparisons", "%d string comparisons" % len(ev), "from_tag no longer compares tags", f_from.loc(), fn=f_from.name)
+    whole = [e for e in ev if any(x in ("&p1", "p1", "&*p1", "«p1»") or x.endswith("p1") or x.endswith("«p1»") for x in e)]
     ctx.check(bool(whole), "LANG-FALLBACK", "sub-language compared with the whole tag", str(whole[:1]),
               "no comparison of a sub-language tag with the whole input tag: %s" % (ev,), f_from.loc(), fn=f_from.name)
